@@ -332,7 +332,8 @@ TOKENRULES2 = (" Verif.Props.TokenRules2 (264 theorems; faithful models of MD023
 LISTRULES = (" Verif.Props.ListRules (faithful models of ContainerTokenManager, MD007 and MD006, scan + fix; 2.4 M comparisons thorough, every executable line of the three modules hit; "
              "MD005 is not modelled): ")
 EXTRA2 = {
- "C03": [" Verif.Props.ListStarts2: list_start_two_lists_columns (the limit is always 3 + parent indent), list_start_two_lists_spec_partial / _ordered_spec_partial (verdict <=> ItemStart counted from the inner / outer / column-0 base under TwoAgree) with list_start_two_lists_excluded ('- a\\n  - b\\n        - c': double-counted parent indent, arguments recorded from the real parser), content_column_spec2_partial, content_column_block_quote_spec_partial, content_column_tab_excluded.",
+ "C03": [" Verif.Props.LeafBlocks2b (32): html_start_spec_partial (kinds 2-5, every line indented <= 3, no further hypothesis), html_start_spec1_partial (kind 1, TAB-free; html_start_spec1_excluded), html_start_spec6_partial / html_start_spec_1to6_partial (any text without TAB and U+212A; both hypotheses shown necessary), html_start_spec_indented, html_start_spec_other, html_start_spec_partial_cm031, and every departure from the specification as a theorem: html_start_differs_dash / _digit / _upper_attr / _digit_attr / _kelvin / _textarea / _search / _decl_lower / _close_pre, html_end_differs_case; fence_content_tab_excluded (three AssertionError shapes), fence_close_tab_excluded.",
+         " Verif.Props.ListStarts2: list_start_two_lists_columns (the limit is always 3 + parent indent), list_start_two_lists_spec_partial / _ordered_spec_partial (verdict <=> ItemStart counted from the inner / outer / column-0 base under TwoAgree) with list_start_two_lists_excluded ('- a\\n  - b\\n        - c': double-counted parent indent, arguments recorded from the real parser), content_column_spec2_partial, content_column_block_quote_spec_partial, content_column_tab_excluded.",
          LEAFBLOCKS2 + "html_end_spec (kinds 2-5, iff), html_end_spec_blank, html_end_spec_partial + html_end_excluded (</PRE>), type7_no_interrupt, fence_content_spec_partial, icode_content_spec, icode_not_eligible; html_start_spec is stated and FALSE as an equality (witnesses: <-> , <1 a>, <a B>, <a 1>, KELVIN <linK>) — totality, locality and no-interrupt are the proved parts, the tie compares with the specification on the whole space and reports the difference classes.",
          LISTSTARTS + "list_start_spec (accepts exactly the CommonMark marker sentence; marker_sentence_is_leanmark ties the sentence to LeanMark's listMarker?), "
          "list_start_decomposition (the verdict for any stack), same_list_spec (5.3: same bullet character / delimiter continues the list), interrupt_spec_partial + interrupt_excluded "
